@@ -493,6 +493,9 @@ def c27_script_case(param):
             res.inconclusive += 1
             continue
         if first not in ("sat", "unsat"):
+            if first == "unknown":
+                res.inc("unknown_" + form)        # giving up (constants beyond the difference-logic range) is not a wrong value
+                continue
             if "(error" in run.out:
                 res.inc("refused_" + form)        # e.g. constants beyond the difference-logic range: allowed, not a wrong value
                 continue
